@@ -586,6 +586,47 @@ func init() {
 			runCase(n+idx, l, c02Case{layout: layouts[d[2]], existing: exsRunning[d[1]], batch: bl1[d[0]], pref: prefs[d[3]], workers: 1, podsFirst: true}, 1, 0)
 		})
 		r.Extra["restart_order_cases"] = n2
+		// ... and while any one API READ of the pass fails once (the topology counts, the namespaces, the pods of a domain
+		// are all looked up during the pass): a pass may place less, what it commits is judged by the same oracle
+		n3 := enum.Size(len(bl1), len(exsRunning), 2, len(prefs))
+		enum.Run(r, n3, func(idx int64, l *ev.Local) {
+			d := enum.Odo(idx, len(bl1), len(exsRunning), 2, len(prefs))
+			c := c02Case{layout: layouts[d[2]], existing: exsRunning[d[1]], batch: bl1[d[0]], pref: prefs[d[3]], workers: 1}
+			ex := &explore.Explorer{Bound: 1, MaxExecs: 2000}
+			ex.Exec = func(run *explore.Run) {
+				env, zones := c02Build(c)
+				taken := env.W.AttachFaultsOpt(run, func(cl *world.Call) bool { return cl.Verb == "get" || cl.Verb == "list" }, false)
+				out := env.runPass(explore.Replay(nil), 1)
+				env.W.Client.Hook, env.W.CP.Hook = nil, nil
+				l.Eval()
+				l.Traces++
+				if out.Err != nil {
+					l.Outcome("read-fault: schedule-error")
+					return
+				}
+				var faults []string
+				for _, f := range *taken {
+					faults = append(faults, f.Call+"="+f.Fault)
+				}
+				viol, placed := c02Judge(env, zones, out)
+				if placed > 0 && len(faults) > 0 {
+					l.NontrivialH(ev.H(fmt.Sprintf("rf/%d/%v/%s", idx, faults, out.Digest)))
+				}
+				l.Outcome(fmt.Sprintf("read-fault: placed=%v", placed > 0))
+				seen := map[string]bool{}
+				for _, v := range viol {
+					if seen[v.Sig] {
+						continue
+					}
+					seen[v.Sig] = true
+					l.Violation(v.Sig+" (while a read failed)", v.Msg+"  ["+c.String()+fmt.Sprintf(" failing reads %v]", faults), map[string]any{"case": c.String(), "faults": faults, "plan": run.Plan(), "outcome": out.Digest})
+				}
+			}
+			ex.Explore()
+			noteDiverged(l, ex, "read-fault")
+			l.Transitions += int64(ex.Points)
+		})
+		r.Extra["read_fault_cases"] = n3
 	})
 }
 
